@@ -290,6 +290,23 @@ fn run(ctx: &RunCtx) -> Report {
     let mut plan = vec![format!("victim {victim_addr} first_node={first_node} public={public} scripted={n_script} distances={distances:?} span_min={}", span / (60 * SEC))];
     let t0 = sim.now();
     let rekey_at = if public && rng.chance(1, 2) { Some(t0 + rng.range(1, span / SEC) * SEC) } else { None };
+    // 1 run in 3 (own random stream): *restarted peers* - at one to three instants some scripted peers that are
+    // (probably) in the table come back under a new random id on the same address, and go on answering the
+    // victim's maintenance pings and lookups under that id
+    let mut prng = Rng::new(crate::rng::key(ctx.seed, &[crate::rng::tag("c12-restarted-peers")]));
+    if n_script > 0 && prng.chance(1, 3) {
+        for _ in 0..prng.usize(1, 3) {
+            let at = t0 + prng.range(0, span / SEC + 15 * 60) * SEC;
+            let rn = rawnet.clone();
+            let victims: Vec<(usize, Id)> = (0..prng.usize(1, 3)).map(|_| (prng.usize(0, n_script - 1), { let d = *prng.pick(&distances); id_at_distance(&own, d, &mut prng) })).collect();
+            sim.at(at, move |_sim| {
+                for (i, nid) in &victims {
+                    rn.with_peer(*i, |p| p.id = *nid);
+                }
+            });
+        }
+        report.probe("runs_with_peers_restarting_under_a_new_id", 1);
+    }
     for i in 0..n_events {
         let mut r = Rng::new(crate::rng::key(ctx.seed, &[crate::rng::tag("ev"), i as u64]));
         if !ctx.enabled(i) {
